@@ -329,8 +329,8 @@ func TestC04_Sweep(t *testing.T) {
 		case "list":
 			lb, ub, _ := sbounds(p)
 			seen := map[int64]bool{}
-			for _, x := range []int64{lb, lb + 1, 2, 3, 16, 127, 128, 129, 255, 256, 257, ub} {
-				if x >= lb && x <= ub && x <= 1024 && !seen[x] {
+			for _, x := range []int64{lb, lb + 1, 2, 3, 16, 127, 128, 129, 255, 256, 257, 1023, 1024, 1025, 1100, 2047, 2048, 2049, 4097, ub} {
+				if x >= lb && x <= ub && x <= 4100 && !seen[x] {
 					seen[x] = true
 					ns = append(ns, x)
 				}
